@@ -43,8 +43,9 @@ KERNELS = [
          type="Int", note="K10: bucket of a key (Python's % : the result has the sign of the modulus)"),
     dict(name="ht_mod", file="npstructures/hashtable.py", qual="HashTable._get_mod",
          rowvars={"keys.size": "n"}, rowparams=[("n", INT)], params={}, ctor=[], calls={},
-         identity_calls=["self.dtype"],
-         type="Int", note="K10: default modulus for n keys"),
+         identity_calls=["self.dtype", "self._fit_mod"],
+         type="Int", note="K10: default modulus for n keys (the cap of the F11d repair, HashTable._fit_mod, is the identity whenever 2n-1 fits the key dtype; "
+                          "beyond that any modulus >= 1 serves and the theorems quantify over every modulus)"),
     dict(name="bit_addr", file="npstructures/bitarray.py", qual="BitArray.__getitem__",
          rowvars={"self._offset": "off", "self._n_entries_per_register": "npr"}, rowparams=[("off", INT), ("npr", INT)],
          params={"idx": ("idx", INT)}, static={"isinstance(idx, list)": False}, identity_calls=["self._dtype"],
